@@ -416,6 +416,64 @@ fn run_implementation(it: &Ty, ot: &Ty, implementer_is_interface: bool, st: &mut
     });
 }
 
+/// (iii-b) one implementer, TWO interfaces that both define `f`: the implementing type must be
+/// valid for each of them (a check that stops after the first interface is wrong).
+fn run_two_interfaces(it1: &Ty, it2: &Ty, ot: &Ty, implementer_is_interface: bool, st: &mut Stats) {
+    st.states += 1;
+    st.transitions += 1;
+    let mut doc = implementation_schema(it1, ot, implementer_is_interface);
+    let mut i2 = TypeDef::new(TypeKind::Interface, "I2");
+    i2.fields.push(FieldDef::new("f", it2.clone()));
+    for d in doc.defs.iter_mut() {
+        if let Definition::Type(t) = d {
+            if t.name == "O" {
+                t.implements.push("I2".into());
+            }
+        }
+    }
+    doc.defs.push(Definition::Type(i2));
+    let sdl = doc.print();
+    let case = || {
+        json!({"part": "iii-b", "it": it1.to_string(), "it2": it2.to_string(), "ot": ot.to_string(),
+               "impl": if implementer_is_interface { "interface" } else { "object" }, "schema": sdl})
+    };
+    let size = sdl.len() as u64;
+    let real = match vcore::catch(|| Schema::parse_and_validate(&sdl, "schema.graphql")) {
+        Ok(Ok(_)) => true,
+        Ok(Err(e)) => {
+            if !diag_has(&e.errors, "InvalidImplementationFieldType", "is not a proper subtype") {
+                st.fail_simple("iii:rejected-by-another-rule", case(), format!("rejected without an implementation-field-type diagnostic: {}", vcore::short(&e.errors.to_string())), size);
+                return;
+            }
+            false
+        }
+        Err(p) => {
+            st.fail_simple("iii:panic", case(), format!("schema validation panicked: {p}"), size);
+            return;
+        }
+    };
+    let rel = SimpleRelations::from_document(&doc);
+    let (m1, m2) = (compat::is_valid_implementation_field_type(ot, it1, &rel), compat::is_valid_implementation_field_type(ot, it2, &rel));
+    if real != (m1 && m2) {
+        st.fail_simple(
+            if real { "iii:accepts-invalid-implementation-type" } else { "iii:rejects-valid-implementation-type" },
+            case(),
+            format!("I {{ f: {it1} }} I2 {{ f: {it2} }}  O implements I & I2 {{ f: {ot} }}: apollo valid={real}, valid for I={m1}, valid for I2={m2}"),
+            size,
+        );
+        return;
+    }
+    if m1 != m2 {
+        st.nontrivial += 1;
+    }
+    st.outcome(match (m1, m2) {
+        (true, true) => "iii-b:valid for both interfaces",
+        (true, false) => "iii-b:valid for the first interface only",
+        (false, true) => "iii-b:valid for the second interface only",
+        (false, false) => "iii-b:valid for neither",
+    });
+}
+
 // ---------------------------------------------------------------------------------
 
 fn run_case_json(case: &Value, kf_open: bool, st: &mut Stats) {
@@ -440,6 +498,7 @@ fn run_case_json(case: &Value, kf_open: bool, st: &mut Stats) {
                 Err(_) => run_usage_location(&lt, ldef, &[], kf_open, st),
             }
         }
+        Some("iii-b") => run_two_interfaces(&ty("it"), &ty("it2"), &ty("ot"), case["impl"].as_str() == Some("interface"), st),
         Some("iii") => run_implementation(&ty("it"), &ty("ot"), case["impl"].as_str() == Some("interface"), st),
         other => vcore::machinery_error(&format!("bad replay case part {other:?}")),
     }
@@ -499,6 +558,17 @@ fn main() {
     });
     println!("(iii) types {} schemas {}", t3.len(), s.states);
     let n3 = s.states;
+    chk.absorb(s);
+    // (iii-b) two interfaces, type references of nesting <= 1
+    let t3b = type_refs(&NAMES_OUTPUT, 1);
+    let s = vcore::par_items(&t3b, |it1, st| {
+        for it2 in &t3b {
+            for ot in &t3b {
+                run_two_interfaces(it1, it2, ot, false, st);
+            }
+        }
+    });
+    println!("(iii-b) types {} schemas {}", t3b.len(), s.states);
     chk.absorb(s);
 
     chk.bounds = json!({
